@@ -46,6 +46,7 @@ type FuncContract struct {
 	Requires  []*Clause
 	Ensures   []*Clause
 	Defines   []*Clause
+	Preserves []*Clause // closure invariants over captured variables (callbacks)
 	Modifies  []string
 	AtCalls   []*Clause
 	Loops     map[int]*LoopSpec
@@ -345,6 +346,12 @@ func (cs *ContractSet) loadFile(path string) error {
 					return err
 				}
 				cur.Defines = append(cur.Defines, c)
+			case "preserves":
+				c, err := mk("preserves")
+				if err != nil {
+					return err
+				}
+				cur.Preserves = append(cur.Preserves, c)
 			case "requires", "ensures", "defines":
 				c, err := mk(kw)
 				if err != nil {
